@@ -132,6 +132,12 @@ class FullStation(World):
             self.mib = MIB(**kw)
             self.gn = GNRouter(self.mib, sign_service=sign_service, verify_service=verify_service)
             self.btp = BTPRouter(self.gn)
+            # record every facility handler invocation: wrap the callbacks as they are registered (public API only)
+            _real_register = self.btp.register_indication_callback_btp
+
+            def _recording_register(port, callback, _reg=_real_register, _log=self.handler_log):
+                return _reg(port=port, callback=RecordingCallback(_log, port, callback))
+            self.btp.register_indication_callback_btp = _recording_register
             self.gn.register_indication_callback(self.btp.btp_data_indication)
             self.ldm = None
             if with_ldm:
@@ -145,8 +151,7 @@ class FullStation(World):
             self.vru = VRUAwarenessService(btp_router=self.btp, device_data_provider=DeviceDataProvider(station_id=station_id, station_type=1),
                                            ldm=self.ldm)
             self.den = DecentralizedEnvironmentalNotificationService(btp_router=self.btp, vehicle_data=vd, ldm=self.ldm)
-            for port, cb in list(self.btp.pre_indication_callbacks.items()):
-                self.btp.pre_indication_callbacks[port] = RecordingCallback(self.handler_log, port, cb)
+            del self.btp.register_indication_callback_btp
             self.btp.freeze_callbacks()
             self.sock = None
             self.rx_thread = None
